@@ -1127,6 +1127,11 @@ impl Ctx {
             self.stop = true;
         }
     }
+    /// The harness itself could not do its job (no binary, no socket, no scratch file): never a verdict.
+    /// The parent turns any such note into exit 2.
+    pub fn machinery(&mut self, what: String) {
+        *self.st.notes.entry(format!("MACHINERY: {}", what)).or_insert(0) += 1;
+    }
     pub fn custom_known(&mut self, key: &str, what: String, case: Value) {
         if self.frozen {
             return;
